@@ -76,26 +76,38 @@ def parse_harness_file(path):
 def all_harnesses(gen_dir=None):
     """Metadata of every harness, static (harness/*.rs) and generated (gen_dir/*.rs)."""
     hs = []
-    for group_name, g in plan.GROUPS.items():
-        for src, hfile in g["mods"].items():
-            if hfile.startswith("gen:"):
-                if gen_dir is None:
-                    continue
-                path = os.path.join(gen_dir, hfile[4:])
-                if not os.path.exists(path):
-                    continue
-            else:
-                path = os.path.join(HARNESS_DIR, hfile)
-            for h in parse_harness_file(path):
-                h["group"] = group_name
-                h["src"] = src
-                h["full_name"] = module_path(src) + "__verif::" + h["id"]
-                hs.append(h)
+    for group_name, src, hfile in plan_mods():
+        if hfile.startswith("gen:"):
+            if gen_dir is None:
+                continue
+            path = os.path.join(gen_dir, hfile[4:])
+            if not os.path.exists(path):
+                continue
+        else:
+            path = os.path.join(HARNESS_DIR, hfile)
+        for h in parse_harness_file(path):
+            h["group"] = group_name
+            h["src"] = src
+            h["mod"] = mod_name(hfile)
+            h["full_name"] = module_path(src) + h["mod"] + "::" + h["id"]
+            hs.append(h)
     ids = [h["id"] for h in hs]
     dup = {i for i in ids if ids.count(i) > 1}
     if dup:
         raise SystemExit(f"duplicate harness ids: {dup}")
     return hs
+
+
+def plan_mods():
+    for group_name, g in plan.GROUPS.items():
+        for src, hfiles in g["mods"].items():
+            for hfile in ([hfiles] if isinstance(hfiles, str) else hfiles):
+                yield group_name, src, hfile
+
+
+def mod_name(hfile):
+    stem = os.path.basename(hfile.split(":", 1)[-1])
+    return "__verif_" + re.sub(r"\W", "_", re.sub(r"\.rs$", "", stem))
 
 
 def module_path(src):
@@ -126,23 +138,25 @@ def build_overlay(prop, tag=None):
         os.stat(os.path.join(VERIF, "tools", f)).st_mtime for f in ("plan.py", "vp_check.py")
     )
     attached = []
-    for group_name, g in plan.GROUPS.items():
-        for src, hfile in g["mods"].items():
-            target = os.path.join(ws, src)
-            if not os.path.exists(target):
-                raise Inconclusive(f"overlay: anchored source {src} no longer exists in /repo")
-            hpath = (
-                os.path.join(gen_dir, hfile[4:]) if hfile.startswith("gen:")
-                else os.path.join(HARNESS_DIR, hfile)
-            )
-            if not os.path.exists(hpath):
-                raise Inconclusive(f"overlay: harness file {hpath} missing")
-            st = os.stat(target)
-            with open(target, "a", encoding="utf-8") as f:
-                f.write(f'\n#[cfg(kani)] #[path = "{hpath}"] mod __verif;\n')
-            # keep cargo's mtime fingerprint stable: the overlay line is constant for a given plan
-            os.utime(target, (st.st_atime, max(st.st_mtime, plan_mtime)))
+    orig_stat = {}
+    for group_name, src, hfile in plan_mods():
+        target = os.path.join(ws, src)
+        if not os.path.exists(target):
+            raise Inconclusive(f"overlay: anchored source {src} no longer exists in /repo")
+        hpath = (
+            os.path.join(gen_dir, hfile[4:]) if hfile.startswith("gen:")
+            else os.path.join(HARNESS_DIR, hfile)
+        )
+        if not os.path.exists(hpath):
+            raise Inconclusive(f"overlay: harness file {hpath} missing")
+        st = orig_stat.setdefault(target, os.stat(target))
+        with open(target, "a", encoding="utf-8") as f:
+            f.write(f'\n#[cfg(kani)] #[path = "{hpath}"] mod {mod_name(hfile)};\n')
+        # keep cargo's mtime fingerprint stable: the overlay line is constant for a given plan
+        os.utime(target, (st.st_atime, max(st.st_mtime, plan_mtime)))
+        if src not in attached:
             attached.append(src)
+    for group_name, g in plan.GROUPS.items():
         for src, (pat, repl) in g.get("rewrites", {}).items():
             target = os.path.join(ws, src)
             st = os.stat(target)
@@ -180,7 +194,7 @@ def run_kani(ws, prop, group, harnesses, jobs, tag, extra_cbmc, timeout_s, playb
     log_path = os.path.join(out_dir, f"{group}.{key}.log")
     if os.path.exists(json_path):
         os.remove(json_path)
-    per = max(int(h.get("timeout", timeout_s)) for h in harnesses)
+    per = max(int(os.environ.get("VERIF_TIMEOUT", 0)) or int(h.get("timeout", timeout_s)) for h in harnesses)
     cmd = ["cargo", "kani", "-p", g["package"], "-Z", "stubbing", "-Z", "unstable-options",
            "--target-dir", target_dir, "--output-format", "terse", "--exact",
            "--harness-timeout", f"{per}s", "--export-json", json_path]
@@ -188,7 +202,8 @@ def run_kani(ws, prop, group, harnesses, jobs, tag, extra_cbmc, timeout_s, playb
         cmd += ["-j", str(min(jobs, len(harnesses)))]
     for h in harnesses:
         cmd += ["--harness", h["full_name"]]
-    if playback:
+    if playback or len(harnesses) == 1:
+        # (incompatible with --jobs, so batches get it only on the re-run of a failing harness)
         cmd += ["-Z", "concrete-playback", "--concrete-playback", "print"]
     if extra_cbmc:
         cmd += ["--cbmc-args"] + extra_cbmc
@@ -316,6 +331,9 @@ def run_property(prop, tier, only, keep_ws, jobs, seed):
         ws, gen_dir, gen_report, attached = build_overlay(prop)
         hs = [h for h in all_harnesses(gen_dir) if h.get("property") == prop]
         missing = gen.check_completeness(ws, hs)
+        for need in pmeta.get("requires_gen", []):
+            if (gen_report.get(need) or {}).get("error"):
+                missing.append(gen_report[need]["error"])
         if missing:
             raise Inconclusive("source drift: " + "; ".join(missing))
         tiers = ("quick",) if tier == "quick" else ("quick", "thorough")
@@ -332,7 +350,7 @@ def run_property(prop, tier, only, keep_ws, jobs, seed):
         for h in order:
             key = (h["group"], h.get("cbmc_args", ""))
             batches.setdefault(key, []).append(h)
-        default_timeout = plan.TIER_TIMEOUT[tier]
+        default_timeout = int(os.environ.get("VERIF_TIMEOUT", plan.TIER_TIMEOUT[tier]))
         results = {}
         runs = []
         # invocations share one cargo target dir (cargo serialises the builds itself); the CBMC
@@ -352,7 +370,7 @@ def run_property(prop, tier, only, keep_ws, jobs, seed):
                 if r["json"]:
                     for res in r["json"].get("verification_results", {}).get("results", []):
                         by_id[res["harness_id"]] = res
-                    stats = {c["harness_id"]: c.get("cbmc_stats", {}) for c in r["json"].get("cbmc", [])}
+                    stats = {c["harness_id"]: (c.get("cbmc_stats") or {}) for c in r["json"].get("cbmc", [])}
                 else:
                     stats = {}
                 for h in bh:
